@@ -119,7 +119,7 @@ class PerfectCoronagraph(OpticalElement):
         ndarray
             The forward transformation_matrix.
         '''
-        return np.eye(self.pupil_grid.size) - self.transformation.dot(self.coeffs * self.transformation_inverse)
+        return np.eye(self.pupil_grid.size) - self.transformation.dot(self.coeffs[:, np.newaxis] * self.transformation_inverse)
 
     def get_transformation_matrix_backward(self, wavelength=1):
         '''Get the backwards propagation transformation matrix.
